@@ -90,7 +90,7 @@ def exec_and_judge(P, ctx, cases, tag):
 def run_property(P, tier, seed, replay=None):
     t0 = time.time()
     prop = P["id"]
-    work = os.path.join(core.ROOT, ".work", "%s-%s" % (prop, tier if not replay else "replay"))
+    work = os.path.join(core.ROOT, ".work", "%s-%s-%d" % (prop, tier if not replay else "replay", os.getpid()))
     shutil.rmtree(work, ignore_errors=True)
     os.makedirs(work)
     ctx = dict(work=work, tier=tier, seed=seed, tlc_runs=[], gen_counts={}, workers=P.get("workers", 8),
